@@ -5,10 +5,11 @@
  *
  * ops:
  *   sign <signers a.b.c> <ctype: data|signed|x> <contenthex>
- *   sign0 <contenthex>                                   SignedData with an empty signerInfos set
+ *   sign0 <empty|absent|junk> <contenthex>               SignedData without signer information: empty SET / field omitted / SET { SEQUENCE {} }
  *   env <rcpts a.b> <opener> <src gen|der|pem|pub> <contenthex>
  *   enc <wrongkey 0|1> <contenthex>
  *   signenv <signers> <rcpts> <opener> <src> <crl 0|1> <contenthex>
+ *   omit <sign|env|enc|signenv> <path|-> <k> <contenthex>   remove child k of the DER node at <path> (well-formed result), then open
  *   tamper <sign|sign2|env|enc|signenv> <step> <offset> <contenthex>   (sign2 = two SignerInfos)     (1 signer = 1, recipients 2.3, opener 2)
  */
 #include "common.h"
@@ -23,20 +24,25 @@
 #include <sys/wait.h>
 #include <gmssl/error.h>
 
-#define NK 6
+#define NK 9
 static SM2_KEY keys[NK + 1];          /* as generated */
 static SM2_KEY keys_der[NK + 1];      /* PrivateKeyInfo DER export + import */
 static SM2_KEY keys_pem[NK + 1];      /* PrivateKeyInfo PEM export + import */
 static SM2_KEY keys_pub[NK + 1];      /* private scalar + public key set from the certificate's point */
 static uint8_t certs[NK + 1][1024]; static size_t certlens[NK + 1];
 
+/* all certificates carry the same issuer name; serial numbers 7, 8, 9 are byte-prefixes of one another */
+static uint8_t serials[NK + 1][8]; static size_t seriallens[NK + 1];
 static int make_cert(int i) {
-	uint8_t name[256]; size_t namelen = 0; char cn[16]; uint8_t serial[8] = { 0x10, 0, 0, 0, 0, 0, 0, (uint8_t)i };
+	uint8_t issuer[256], subject[256]; size_t issuerlen = 0, subjectlen = 0; char cn[16];
 	uint8_t *p = certs[i]; size_t len = 0;
+	if (i <= 6) { uint8_t s8[8] = { 0x10, 0, 0, 0, 0, 0, 0, (uint8_t)i }; memcpy(serials[i], s8, 8); seriallens[i] = 8; }
+	else { memset(serials[i], 0, 8); serials[i][0] = 0x01; seriallens[i] = (size_t)(i - 6); }      /* 01 | 01 00 | 01 00 00 */
 	snprintf(cn, sizeof cn, "U%d", i);
-	if (x509_name_set(name, &namelen, sizeof name, "CN", NULL, NULL, "VERIF", NULL, cn) != 1) return -1;
-	if (x509_cert_sign_to_der(X509_version_v3, serial, sizeof serial, OID_sm2sign_with_sm3, name, namelen, 1600000000, 1900000000,
-		name, namelen, &keys[i], NULL, 0, NULL, 0, NULL, 0, &keys[i], SM2_DEFAULT_ID, SM2_DEFAULT_ID_LENGTH, &p, &len) != 1) return -1;
+	if (x509_name_set(issuer, &issuerlen, sizeof issuer, "CN", NULL, NULL, "VERIF", NULL, "CA") != 1) return -1;
+	if (x509_name_set(subject, &subjectlen, sizeof subject, "CN", NULL, NULL, "VERIF", NULL, cn) != 1) return -1;
+	if (x509_cert_sign_to_der(X509_version_v3, serials[i], seriallens[i], OID_sm2sign_with_sm3, issuer, issuerlen, 1600000000, 1900000000,
+		subject, subjectlen, &keys[i], NULL, 0, NULL, 0, NULL, 0, &keys[1], SM2_DEFAULT_ID, SM2_DEFAULT_ID_LENGTH, &p, &len) != 1) return -1;
 	certlens[i] = len;
 	return 1;
 }
@@ -144,12 +150,15 @@ static int open_signenv(const blob_t *m, const SM2_KEY *k, int certidx, const bu
 static const char *res(int r) { return r == 1 ? "1" : r == 2 ? "OTHER-CONTENT" : "ERR"; }
 
 /* SignedData with zero SignerInfos: the library's own field writers, an empty SET written by hand */
-static blob_t make_signed0(const buf_t *content) {
+/* variant 0: signerInfos = empty SET; 1: signerInfos field absent; 2: SET holding an empty SEQUENCE */
+static blob_t make_signed0(const buf_t *content, int variant) {
 	blob_t r = { NULL, 0 }; int dalg = OID_sm3; size_t len = 0, seqlen = 0, n = 0; uint8_t *tmp, *p;
+	static const uint8_t tails[3][4] = { { 0x31, 0x00 }, { 0 }, { 0x31, 0x02, 0x30, 0x00 } }; static const size_t taillens[3] = { 2, 0, 4 };
+	if (variant < 0 || variant > 2) return r;
 	if (asn1_int_to_der(CMS_version_v1, NULL, &len) != 1 || cms_digest_algors_to_der(&dalg, 1, NULL, &len) != 1
 		|| cms_content_info_to_der(OID_cms_data, content->p, content->n, NULL, &len) != 1
 		|| asn1_implicit_set_to_der(0, certs[1], certlens[1], NULL, &len) != 1) return r;
-	len += 2;                                         /* SET OF SignerInfo = 31 00 */
+	len += taillens[variant];
 	if (asn1_sequence_header_to_der(len, NULL, &seqlen) != 1) return r;
 	seqlen += len;
 	tmp = malloc(seqlen + 64); p = tmp;
@@ -157,7 +166,7 @@ static blob_t make_signed0(const buf_t *content) {
 		|| asn1_sequence_header_to_der(len, &p, &n) != 1 || asn1_int_to_der(CMS_version_v1, &p, &n) != 1
 		|| cms_digest_algors_to_der(&dalg, 1, &p, &n) != 1 || cms_content_info_to_der(OID_cms_data, content->p, content->n, &p, &n) != 1
 		|| asn1_implicit_set_to_der(0, certs[1], certlens[1], &p, &n) != 1) { free(tmp); return r; }
-	*p++ = 0x31; *p++ = 0x00; n += 2;
+	memcpy(p, tails[variant], taillens[variant]); n += taillens[variant];
 	r.p = malloc(n); memcpy(r.p, tmp, n); r.n = n; free(tmp);
 	return r;
 }
@@ -183,7 +192,7 @@ static void enckey_region(region_t *r, const blob_t *m, const uint8_t *ri, size_
 	while (ril) {
 		int v, pke; const uint8_t *iss, *ser, *par, *ek; size_t il, sl, pl, ekl;
 		if (cms_recipient_info_from_der(&v, &iss, &il, &ser, &sl, &pke, &par, &pl, &ek, &ekl, &ri, &ril) != 1) return;
-		if (sl && ser[sl - 1] == (uint8_t)opener) { set_region(r, m, ek, ekl); return; }
+		if (sl == seriallens[opener] && !memcmp(ser, serials[opener], sl)) { set_region(r, m, ek, ekl); return; }
 	}
 }
 static void do_tamper(const char *kind, size_t step, size_t off, const buf_t *content) {
@@ -261,6 +270,58 @@ static void do_tamper(const char *kind, size_t step, size_t off, const buf_t *co
 	free(m.p); free(ct);
 }
 
+/* ------------------------------------------------------------------ structural omission (wave 2)
+ * omit <sign|env|enc|signenv> <path a.b.c|-> <k>: rebuild the message with child k of the node at <path> removed (lengths
+ * recomputed, so the result is well-formed DER) and try to open it.  NOCHILD = the node has no child k. */
+static int der_hdr(const uint8_t *p, size_t n, size_t *hl, size_t *cl) {
+	size_t l, k, i;
+	if (n < 2) return 0;
+	if (p[1] < 0x80) { *hl = 2; *cl = p[1]; }
+	else { k = p[1] & 0x7f; if (k < 1 || k > 4 || n < 2 + k) return 0; l = 0; for (i = 0; i < k; i++) l = (l << 8) | p[2 + i]; *hl = 2 + k; *cl = l; }
+	return *hl + *cl <= n;
+}
+static size_t put_len(uint8_t *o, size_t l) {
+	if (l < 128) { o[0] = (uint8_t)l; return 1; }
+	if (l < 256) { o[0] = 0x81; o[1] = (uint8_t)l; return 2; }
+	if (l < 65536) { o[0] = 0x82; o[1] = (uint8_t)(l >> 8); o[2] = (uint8_t)l; return 3; }
+	o[0] = 0x83; o[1] = (uint8_t)(l >> 16); o[2] = (uint8_t)(l >> 8); o[3] = (uint8_t)l; return 4;
+}
+/* returns new length written to out, 0 on failure; *nochild set when the target child does not exist */
+static size_t der_omit(const uint8_t *p, size_t n, const int *path, size_t plen, int k, uint8_t *out, int *nochild) {
+	size_t hl, cl, off = 0, idx = 0, w = 0; uint8_t *tmp; int hit = 0;
+	if (!der_hdr(p, n, &hl, &cl)) return 0;
+	tmp = malloc(cl + 8);
+	while (off < cl) {
+		size_t chl, ccl, clen;
+		if (!der_hdr(p + hl + off, cl - off, &chl, &ccl)) { free(tmp); return 0; }
+		clen = chl + ccl;
+		if (plen == 0 && (int)idx == k) { hit = 1; }
+		else if (plen > 0 && (int)idx == path[0]) { size_t r = der_omit(p + hl + off, clen, path + 1, plen - 1, k, tmp + w, nochild); if (!r) { free(tmp); return 0; } w += r; hit = 1; }
+		else { memcpy(tmp + w, p + hl + off, clen); w += clen; }
+		off += clen; idx++;
+	}
+	if (!hit) { *nochild = 1; free(tmp); return 0; }
+	out[0] = p[0]; { size_t ll = put_len(out + 1, w); memcpy(out + 1 + ll, tmp, w); free(tmp); return 1 + ll + w; }
+}
+static void do_omit(const char *kind, char *pathstr, int k, const buf_t *content) {
+	int s1[] = { 1 }, r23[] = { 2, 3 }; blob_t m = { NULL, 0 }, t; int path[8]; size_t plen = 0; int nochild = 0, r; char *save = NULL, *tok;
+	if (strcmp(pathstr, "-")) for (tok = strtok_r(pathstr, ".", &save); tok && plen < 8; tok = strtok_r(NULL, ".", &save)) path[plen++] = atoi(tok);
+	if (!strcmp(kind, "sign")) m = make_signed(s1, 1, OID_cms_data, content);
+	else if (!strcmp(kind, "env")) m = make_env(r23, 2, OID_cms_data, content);
+	else if (!strcmp(kind, "enc")) m = make_enc(OID_cms_data, content);
+	else if (!strcmp(kind, "signenv")) m = make_signenv(s1, 1, r23, 2, OID_cms_data, content, 1);
+	if (!m.p) { printf("ERR produce"); return; }
+	t.p = malloc(m.n + 16); t.n = der_omit(m.p, m.n, path, plen, k, t.p, &nochild);
+	if (!t.n) { printf(nochild ? "NOCHILD" : "ERR surgery"); free(m.p); free(t.p); return; }
+	{ uint8_t *e = malloc(t.n); memcpy(e, t.p, t.n); free(t.p); t.p = e; }   /* exactly sized */
+	if (!strcmp(kind, "sign")) r = open_signed(&t, content, NULL, NULL);
+	else if (!strcmp(kind, "env")) r = open_env(&t, &keys_pub[2], 2, content);
+	else if (!strcmp(kind, "enc")) r = open_enc(&t, SYMKEY, content);
+	else r = open_signenv(&t, &keys_pub[2], 2, content);
+	printf("%s", r == 0 ? "REFUSED" : r == 1 ? "OPENED-SAME-CONTENT" : "OPENED-OTHER-CONTENT");
+	free(m.p); free(t.p);
+}
+
 static void handle(size_t nw, char **w) {
 	ent_seed(0xC16 + nw, -1);
 	ent_clock(1700000000);
@@ -273,8 +334,8 @@ static void handle(size_t nw, char **w) {
 		printf("S=1 V=%s", res(r)); if (r) printf(" ncerts=%zu ninfos=%zu", nc, ni);
 		free(m.p); free(c.p);
 	}
-	else if (!strcmp(w[0], "sign0") && nw == 2) {
-		buf_t c = hex2buf(w[1]); blob_t m = make_signed0(&c);
+	else if (!strcmp(w[0], "sign0") && nw == 3) {
+		buf_t c = hex2buf(w[2]); blob_t m = make_signed0(&c, !strcmp(w[1], "empty") ? 0 : !strcmp(w[1], "absent") ? 1 : !strcmp(w[1], "junk") ? 2 : 9);
 		if (!m.p) printf("ERR produce"); else printf("V=%s", res(open_signed(&m, &c, NULL, NULL)));
 		free(m.p); free(c.p);
 	}
@@ -297,6 +358,7 @@ static void handle(size_t nw, char **w) {
 		if (!m.p) printf("E=ERR"); else printf("E=1 D=%s", res(open_signenv(&m, key_from(w[4], op), op, &c)));
 		free(m.p); free(c.p);
 	}
+	else if (!strcmp(w[0], "omit") && nw == 5) { buf_t c = hex2buf(w[4]); do_omit(w[1], w[2], atoi(w[3]), &c); free(c.p); }
 	else if (!strcmp(w[0], "tamper") && nw == 5) { buf_t c = hex2buf(w[4]); do_tamper(w[1], strtoul(w[2], NULL, 10), strtoul(w[3], NULL, 10), &c); free(c.p); }
 	else printf("ERR bad-op");
 }
